@@ -24,12 +24,16 @@ struct Key {
 enum Script {
     Silent,
     Garbage,
-    Reply(Vec<u32>, Vec<u32>, Vec<u32>),
+    /// TTLs of the answer, authority and additional records; the rcode of the reply
+    Reply(Vec<u32>, Vec<u32>, Vec<u32>, u8),
 }
 
 #[derive(Clone, Debug)]
 enum Op {
     Query(Key, u16, Script),
+    /// the same, but the look-up is made to wait for the cache's lock (held by the harness through
+    /// the hook) while the clock moves on by the given time; it gets the lock only then
+    HeldQuery(Duration, Key, u16, Script),
     Advance(Duration),
     Expire,
 }
@@ -40,7 +44,7 @@ struct Upstream {
     script: Arc<Mutex<Script>>,
 }
 
-fn build_reply(q: &[u8], a: &[u32], n: &[u32], d: &[u32]) -> Option<Vec<u8>> {
+fn build_reply(q: &[u8], a: &[u32], n: &[u32], d: &[u32], rcode: u8) -> Option<Vec<u8>> {
     if q.len() < 17 {
         return None;
     }
@@ -49,7 +53,7 @@ fn build_reply(q: &[u8], a: &[u32], n: &[u32], d: &[u32]) -> Option<Vec<u8>> {
         i += 1 + q[i] as usize;
     }
     i += 5;
-    let mut v = vec![q[0], q[1], 0x81, 0x80, 0, 1];
+    let mut v = vec![q[0], q[1], 0x81, 0x80 | (rcode & 15), 0, 1];
     v.extend((a.len() as u16).to_be_bytes());
     v.extend((n.len() as u16).to_be_bytes());
     v.extend((d.len() as u16).to_be_bytes());
@@ -81,8 +85,8 @@ async fn start_upstream() -> Upstream {
                     Script::Garbage => {
                         let _ = sock.send_to(&[buf[0], buf[1], 0x81], from).await;
                     }
-                    Script::Reply(a, n, d) => {
-                        if let Some(r) = build_reply(&buf[..l], &a, &n, &d) {
+                    Script::Reply(a, n, d, rc) => {
+                        if let Some(r) = build_reply(&buf[..l], &a, &n, &d, rc) {
                             let _ = sock.send_to(&r, from).await;
                         }
                     }
@@ -162,7 +166,7 @@ async fn run_history(ops: &[Op]) -> Toks {
     // taken around every call are what the model is given, so a slip would not be a false alarm,
     // but it would waste the boundary the generator aims at.
     {
-        *up.script.lock().unwrap() = Script::Reply(vec![1], vec![], vec![]);
+        *up.script.lock().unwrap() = Script::Reply(vec![1], vec![], vec![], 0);
         let msg = mk_msg(&Key { name: vec![b"warm".to_vec()], qtype: 1, edns_do: false, cd: false }, 3);
         let _ = cache.handle_query(&msg, up.addr).await;
         for _ in 0..4 {
@@ -174,8 +178,21 @@ async fn run_history(ops: &[Op]) -> Toks {
     t.n(1).n(ops.len() as u64);
     for op in ops {
         match op {
-            Op::Query(k, qclass, script) => {
-                t.n(1);
+            Op::Query(..) | Op::HeldQuery(..) => {
+                let (hold, k, qclass, script) = match op {
+                    Op::Query(k, c, s) => (None, k, c, s),
+                    Op::HeldQuery(h, k, c, s) => (Some(*h), k, c, s),
+                    _ => unreachable!(),
+                };
+                match hold {
+                    None => {
+                        t.n(1);
+                    }
+                    Some(h) => {
+                        t.n(4);
+                        put_time(&mut t, h);
+                    }
+                }
                 put_key(&mut t, k);
                 t.n(*qclass as u64);
                 match script {
@@ -185,8 +202,12 @@ async fn run_history(ops: &[Op]) -> Toks {
                     Script::Garbage => {
                         t.n(2);
                     }
-                    Script::Reply(a, n, d) => {
-                        t.n(1);
+                    Script::Reply(a, n, d, rc) => {
+                        if *rc == 0 {
+                            t.n(1);
+                        } else {
+                            t.n(3).n(*rc as u64);
+                        }
                         put_ttls(&mut t, a);
                         put_ttls(&mut t, n);
                         put_ttls(&mut t, d);
@@ -194,11 +215,28 @@ async fn run_history(ops: &[Op]) -> Toks {
                 }
                 *up.script.lock().unwrap() = script.clone();
                 let h0 = up.hits.load(Ordering::SeqCst);
-                let tb = Instant::now() - t0;
                 let msg = mk_msg(k, *qclass);
                 let c2 = cache.clone();
                 let addr = up.addr;
-                let res = tokio::spawn(async move { c2.handle_query(&msg, addr).await }).await;
+                let (tb, res) = match hold {
+                    None => {
+                        let tb = Instant::now() - t0;
+                        (tb, tokio::spawn(async move { c2.handle_query(&msg, addr).await }).await)
+                    }
+                    Some(h) => {
+                        // the look-up starts now, has to wait for the lock, and gets it `h` later:
+                        // the instant that counts is the one at which it is served
+                        let guard = cache.lock_exclusive().await;
+                        let task = tokio::spawn(async move { c2.handle_query(&msg, addr).await });
+                        for _ in 0..4 {
+                            tokio::task::yield_now().await;
+                        }
+                        tokio::time::advance(h).await;
+                        let tb = Instant::now() - t0;
+                        drop(guard);
+                        (tb, task.await)
+                    }
+                };
                 let ta = Instant::now() - t0;
                 for _ in 0..2 {
                     tokio::task::yield_now().await; // let the upstream task drain retransmissions
@@ -249,7 +287,9 @@ async fn run_history(ops: &[Op]) -> Toks {
 }
 
 // ---- generator --------------------------------------------------------------
-const TTLS: &[u32] = &[0, 1, 1, 2, 2, 3, 5, 60, 600, 1 << 31, u32::MAX];
+const TTLS: &[u32] = &[0, 1, 1, 2, 2, 3, 5, 7, 8, 9, 30, 60, 600, 1 << 31, u32::MAX];
+/// rcodes of scripted replies: every one of 0..5, and a few beyond
+const RCODES: &[u8] = &[0, 0, 0, 0, 1, 2, 2, 2, 3, 3, 4, 5, 6, 9, 15];
 
 fn gen_ttls(r: &mut Rng, allow_zero: bool) -> Vec<u32> {
     (0..r.below(4))
@@ -300,18 +340,24 @@ fn gen_history(r: &mut Rng, stats: &mut Stats) -> Vec<Op> {
         let script = match r.below(14) {
             0 => Script::Silent,
             1 => Script::Garbage,
-            2 => Script::Reply(vec![], vec![], vec![]),
-            3 => Script::Reply(gen_ttls(r, true), gen_ttls(r, true), gen_ttls(r, true)),
+            2 => Script::Reply(vec![], vec![], vec![], *r.pick(RCODES)),
+            3 => Script::Reply(gen_ttls(r, true), gen_ttls(r, true), gen_ttls(r, true), *r.pick(RCODES)),
             _ => {
                 let mut a = gen_ttls(r, false);
                 if a.is_empty() {
-                    a.push(*r.pick(&[1u32, 2, 3, 5, 60]));
+                    a.push(*r.pick(&[1u32, 2, 3, 5, 7, 8, 9, 30, 60]));
                 }
-                Script::Reply(a, gen_ttls(r, false), gen_ttls(r, false))
+                let rc = *r.pick(RCODES);
+                if rc != 0 {
+                    stats.bump(&format!("reply.rcode{}", rc));
+                }
+                // an error reply whose only records sit in the authority / additional section
+                let (a, n) = if rc != 0 && r.chance(1, 2) { (vec![], a) } else { (a, gen_ttls(r, false)) };
+                Script::Reply(a, n, gen_ttls(r, false), rc)
             }
         };
         let life_ms: Option<u64> = match &script {
-            Script::Reply(a, n, d) => a.iter().chain(n.iter()).chain(d.iter()).min().map(|&m| m as u64 * 1000),
+            Script::Reply(a, n, d, _) => a.iter().chain(n.iter()).chain(d.iter()).min().map(|&m| m as u64 * 1000),
             _ => Some(8000),
         };
         ops.push(Op::Query(k.clone(), qclass, script));
@@ -320,7 +366,11 @@ fn gen_history(r: &mut Rng, stats: &mut Stats) -> Vec<Op> {
         let mut elapsed_ms: u64 = 0;
         for _ in 0..looks {
             let life = life_ms.unwrap_or(0);
-            let target: u64 = match r.below(10) {
+            let target: u64 = match r.below(14) {
+                10 => life + 1000,
+                11 => 7900,
+                12 => 8100,
+                13 => life + 999,
                 0 => life.saturating_sub(1),
                 1 | 2 => life,
                 3 | 4 => life + 1,
@@ -356,9 +406,24 @@ fn gen_history(r: &mut Rng, stats: &mut Stats) -> Vec<Op> {
             let s2 = if r.chance(1, 8) {
                 Script::Silent
             } else {
-                Script::Reply(vec![*r.pick(&[7u32, 9, 11])], gen_ttls(r, true), vec![])
+                Script::Reply(vec![*r.pick(&[7u32, 9, 11])], gen_ttls(r, true), vec![], *r.pick(RCODES))
             };
-            ops.push(Op::Query(kq, if r.chance(1, 15) { 3 } else { 1 }, s2));
+            let qc = if r.chance(1, 15) { 3 } else { 1 };
+            // now and then the look-up has to wait for the cache's lock across the moment the entry
+            // runs out (or across a whole second of its age)
+            if life > elapsed_ms && life - elapsed_ms <= 5000 && r.chance(1, 3) {
+                let hold = life - elapsed_ms + *r.pick(&[1u64, 1, 300, 0]);
+                stats.bump("query.held_across_expiry");
+                ops.push(Op::HeldQuery(Duration::from_millis(hold), kq, qc, s2));
+                elapsed_ms += hold;
+            } else if r.chance(1, 12) {
+                let hold = *r.pick(&[1000u64, 999, 1001, 1500]);
+                stats.bump("query.held");
+                ops.push(Op::HeldQuery(Duration::from_millis(hold), kq, qc, s2));
+                elapsed_ms += hold;
+            } else {
+                ops.push(Op::Query(kq, qc, s2));
+            }
         }
         if r.chance(1, 3) {
             ops.push(Op::Expire);
@@ -407,13 +472,18 @@ impl<'a> Cur<'a> {
     }
     fn op(&mut self) -> Option<Op> {
         match self.n()? {
-            1 => {
+            code @ (1 | 4) => {
+                let hold = if code == 4 { Some(Duration::new(self.n()?, self.n()? as u32)) } else { None };
                 let k = self.key()?;
                 let qclass = self.n()? as u16;
                 let script = match self.n()? {
                     0 => Script::Silent,
                     2 => Script::Garbage,
-                    _ => Script::Reply(self.ttls()?, self.ttls()?, self.ttls()?),
+                    3 => {
+                        let rc = self.n()? as u8;
+                        Script::Reply(self.ttls()?, self.ttls()?, self.ttls()?, rc)
+                    }
+                    _ => Script::Reply(self.ttls()?, self.ttls()?, self.ttls()?, 0),
                 };
                 self.skip(5)?; // tb ta asked
                 match self.n()? {
@@ -426,7 +496,10 @@ impl<'a> Cur<'a> {
                     1 => self.skip(1)?,
                     _ => {}
                 }
-                Some(Op::Query(k, qclass, script))
+                Some(match hold {
+                    None => Op::Query(k, qclass, script),
+                    Some(h) => Op::HeldQuery(h, k, qclass, script),
+                })
             }
             2 => {
                 let (s, ns) = (self.n()?, self.n()?);
